@@ -88,18 +88,21 @@ class FindingEnv:
 
 
 def step_job(prop, cls, method, doms, kwdoms, tier, listeners, want, name_prefix, cube=None,
-             timeout_ms=120000, part=None):
-    """want: which assertion families to discharge: 'I1','I2','I3','types','frame'"""
+             timeout_ms=120000, part=None, shape=None, shape_name="", profile=None):
+    """want: which assertion families to discharge: 'I1','I2','I3','types','frame'
+    shape/profile: optional shape-concrete universe (containment fixed by the job, links symbolic)"""
     t_all = time.time()
     ns_policy = listeners.split(":")[1] if listeners.startswith("manager:") else None
-    u, p = M.universe(tier, cls, method, ns_policy)
+    u, p = M.universe(tier, cls, method, ns_policy, profile=profile)
     doms = [tuple(d) if isinstance(d, list) else d for d in _detuple(doms)]
     kwdoms = {k: _detuple(v) for k, v in (kwdoms or {}).items()}
     prep = M.listeners_manager(ns_policy) if ns_policy else \
         {"none": M.listeners_none, "recorder": M.listeners_recorder}[listeners]
-    base_name = "%s/%s.%s[%s]" % (name_prefix, cls, method, listeners)
+    base_name = "%s/%s.%s[%s]%s" % (name_prefix, cls, method, listeners,
+                                    "{shape=%s}" % shape_name if shape_name else "")
     try:
-        run = M.run_mutator(u, p["seq"], cls, method, doms, kwdoms, prep=prep, ns_policy=ns_policy)
+        run = M.run_mutator(u, p["seq"], cls, method, doms, kwdoms, prep=prep, ns_policy=ns_policy,
+                            shape=shape_from_json(shape))
     except Unsupported as e:
         return [result(base_name, INCONCLUSIVE, "E1/symheap", detail="Unsupported: %s" % e,
                        wall_s=time.time() - t_all)]
@@ -111,7 +114,8 @@ def step_job(prop, cls, method, doms, kwdoms, tier, listeners, want, name_prefix
                 k = [n for n in run["ab"].vars if n.endswith(k[1:])][0]
             A.append(run["ab"].vars[k] == v)
     funcs = sorted(fn_ident(f) for f in ctx.funcs_seen)
-    bounds = dict(u.describe(), profile=p["profile"], seq_len=p["seq"], listeners=listeners, tier=tier, cube=cube or {})
+    bounds = dict(u.describe(), profile=p["profile"], seq_len=p["seq"], listeners=listeners, tier=tier, cube=cube or {},
+                  shape=shape or "symbolic containment")
     ok_path = B(NOT(ctx.bound))
     # reachability twins
     tw = {}
